@@ -17,7 +17,14 @@ def c08_children(cx, man, chk):
     for prof in ('debug', 'release'):
         for i, op in enumerate(reqs):
             t0 = time.time()
-            p = subprocess.run([chk.harness_bin(prof), 'drain2m'], input=(op + '\n').encode(), stdout=subprocess.PIPE, stderr=subprocess.PIPE)
+            try:
+                p = subprocess.run([chk.harness_bin(prof), 'drain2m'], input=(op + '\n').encode(), stdout=subprocess.PIPE, stderr=subprocess.PIPE,
+                                   timeout=(1800 if cx.tier == 'thorough' else 240))
+            except subprocess.TimeoutExpired:
+                runs.append({'profile': prof, 'request': i, 'answer': 'timeout', 'expected': None, 'status': 'did not terminate', 'seconds': round(time.time() - t0, 2)})
+                cx.failing.append({'op': op, 'impl': 'timeout', 'spec': '=terminates', 'model': mans[i] if i < len(mans) else '', 'profile': prof,
+                                   'kind': 'implementation-vs-specification', 'via': 'drain2m child process: did not terminate within the time limit'})
+                continue
             out = p.stdout.decode('utf-8', 'replace').strip().splitlines()
             ans = out[-1] if out else ''
             m = re.match(r'ok n=(\d+)', mans[i]) if i < len(mans) else None
